@@ -306,15 +306,10 @@ theorem transfer_Step {c : Cfg} (hg : good c = true) {v v' : VS} {h f t X rf rt 
 
 /-! ### the chain: pools, distribution module account, accounts -/
 
-/-- Σ balances of unbonding-delegation entries -/
-def ubdSum : List (Nat × Nat × Nat × Nat) → Nat
-  | [] => 0
-  | e :: es => e.2.2.2 + ubdSum es
-
-theorem ubdSum_append (l : List (Nat × Nat × Nat × Nat)) (e : Nat × Nat × Nat × Nat) : ubdSum (l ++ [e]) = ubdSum l + e.2.2.2 := by
+theorem ubdSum_append (l : List (Nat × Nat × Nat × Nat)) (e : Nat × Nat × Nat × Nat) : ubdTotal (l ++ [e]) = ubdTotal l + e.2.2.2 := by
   induction l with
-  | nil => simp [ubdSum]
-  | cons a as ih => simp only [List.cons_append, ubdSum, ih]; omega
+  | nil => simp [ubdTotal]
+  | cons a as ih => simp only [List.cons_append, ubdTotal, ih]; omega
 
 /-- tokens of a validator that count towards the bonded / the not-bonded pool -/
 def bTok (v : VS) : Nat := if v.bonded then v.tokens else 0
@@ -327,7 +322,7 @@ what the accounts received -/
 structure BInv (s : State) : Prop where
   acct : ∀ w, Acct (s.vs w)
   bonded : s.bondedPool = sumTo s.nVal (fun w => bTok (s.vs w))
-  notBonded : s.notBondedPool = sumTo s.nVal (fun w => nTok (s.vs w)) + ubdSum s.ubd
+  notBonded : s.notBondedPool = sumTo s.nVal (fun w => nTok (s.vs w)) + ubdTotal s.ubd
   allocated : sumTo s.nVal (fun w => (s.vs w).allocated) = s.distrIn * ONE
   paid : sumTo s.nVal (fun w => (s.vs w).paid) = s.distrOut
   gain : sumTo s.nAcc s.gain = s.distrOut
@@ -350,8 +345,8 @@ theorem BInv_step1 {s s' : State} (hi : BInv s) {v : Nat} (hv : v < s.nVal) {x :
     (hal : x.allocated = (s.vs v).allocated + a * ONE)
     (htok : x.tokens + dn = (s.vs v).tokens + up)
     (hbp : s'.bondedPool + (if (s.vs v).bonded then dn else 0) = s.bondedPool + (if (s.vs v).bonded then up else 0))
-    (hnp : s'.notBondedPool + (if (s.vs v).bonded then 0 else dn) + ubdSum s.ubd =
-           s.notBondedPool + (if (s.vs v).bonded then 0 else up) + ubdSum s'.ubd)
+    (hnp : s'.notBondedPool + (if (s.vs v).bonded then 0 else dn) + ubdTotal s.ubd =
+           s.notBondedPool + (if (s.vs v).bonded then 0 else up) + ubdTotal s'.ubd)
     (hin : s'.distrIn = s.distrIn + a) (hout : s'.distrOut = s.distrOut + c)
     (hgain : sumTo s.nAcc s'.gain = sumTo s.nAcc s.gain + c) : BInv s' := by
   have e1 := sum_setAt bTok s.vs hv x
@@ -503,7 +498,7 @@ theorem block_BInv {s : State} (hi : BInv s) :
     exact a
   · show s.bondedPool - s.leaving + s.entering = sumTo s.nVal (fun i => bTok ((s.vs i).endBlock s.height))
     omega
-  · show s.notBondedPool + s.leaving - s.entering = sumTo s.nVal (fun i => nTok ((s.vs i).endBlock s.height)) + ubdSum s.ubd
+  · show s.notBondedPool + s.leaving - s.entering = sumTo s.nVal (fun i => nTok ((s.vs i).endBlock s.height)) + ubdTotal s.ubd
     omega
   · show sumTo s.nVal (fun w => ((s.vs w).endBlock s.height).allocated) = s.distrIn * ONE
     rw [← hi.allocated]
@@ -512,9 +507,73 @@ theorem block_BInv {s : State} (hi : BInv s) :
     rw [← hi.paid]
     exact sumTo_congr (fun i _ => (endBlock_fields (s.vs i) s.height).2.2.2.1)
 
+/-- `UnbondAllMatureValidators` touches only the status -/
+theorem matureStep_fields (v : VS) (h : Nat) :
+    (if v.bonded then v.endBlock h else (v.endBlock h).matureVal).bonded = (v.endBlock h).bonded ∧
+    (if v.bonded then v.endBlock h else (v.endBlock h).matureVal).tokens = v.tokens ∧
+    (if v.bonded then v.endBlock h else (v.endBlock h).matureVal).cur = v.cur ∧
+    (if v.bonded then v.endBlock h else (v.endBlock h).matureVal).outstanding = v.outstanding ∧
+    (if v.bonded then v.endBlock h else (v.endBlock h).matureVal).paid = v.paid ∧
+    (if v.bonded then v.endBlock h else (v.endBlock h).matureVal).dust = v.dust ∧
+    (if v.bonded then v.endBlock h else (v.endBlock h).matureVal).allocated = v.allocated := by
+  obtain ⟨f1, f2, f3, f4, f5, f6⟩ := endBlock_fields v h
+  split
+  · exact ⟨rfl, f1, f2, f3, f4, f5, f6⟩
+  · unfold VS.matureVal
+    split
+    · exact ⟨rfl, f1, f2, f3, f4, f5, f6⟩
+    · exact ⟨rfl, f1, f2, f3, f4, f5, f6⟩
+
+/-- the unbonding period passes: the validator-set update of `block`, plus every unbonding entry is paid back out of
+the not-bonded pool -/
+theorem mature_BInv {s : State} (hi : BInv s) :
+    BInv { s with height := s.height + 1,
+                  vs := fun i => if (s.vs i).bonded then (s.vs i).endBlock s.height else ((s.vs i).endBlock s.height).matureVal,
+                  bondedPool := s.bondedPool - s.leaving + s.entering,
+                  notBondedPool := s.notBondedPool + s.leaving - s.entering - ubdTotal s.ubd,
+                  returned := fun d => s.returned d + ubdTotal (s.ubd.filter (fun u => u.1 == d)),
+                  ubd := [], redel := [] } := by
+  have hb := block_BInv hi
+  have b2 := hb.bonded
+  have b3 := hb.notBonded
+  have e : ∀ w, bTok (if (s.vs w).bonded then (s.vs w).endBlock s.height else ((s.vs w).endBlock s.height).matureVal) =
+      bTok ((s.vs w).endBlock s.height) ∧
+      nTok (if (s.vs w).bonded then (s.vs w).endBlock s.height else ((s.vs w).endBlock s.height).matureVal) =
+      nTok ((s.vs w).endBlock s.height) := by
+    intro w
+    obtain ⟨g1, g2, _⟩ := matureStep_fields (s.vs w) s.height
+    unfold bTok nTok
+    rw [g1, g2, (endBlock_fields (s.vs w) s.height).1]
+    exact ⟨rfl, rfl⟩
+  refine ⟨?_, ?_, ?_, ?_, ?_, hi.gain⟩
+  · intro w
+    have a := hi.acct w
+    obtain ⟨_, _, g3, g4, g5, g6, g7⟩ := matureStep_fields (s.vs w) s.height
+    unfold Acct at a ⊢
+    show (if (s.vs w).bonded then (s.vs w).endBlock s.height else ((s.vs w).endBlock s.height).matureVal).cur ≤ _ ∧ _
+    rw [g3, g4, g5, g6, g7]
+    exact a
+  · show s.bondedPool - s.leaving + s.entering = sumTo s.nVal (fun w => bTok _)
+    rw [sumTo_congr (fun w _ => (e w).1)]
+    exact b2
+  · show s.notBondedPool + s.leaving - s.entering - ubdTotal s.ubd = sumTo s.nVal (fun w => nTok _) + ubdTotal []
+    rw [sumTo_congr (fun w _ => (e w).2)]
+    have b3' : s.notBondedPool + s.leaving - s.entering =
+        sumTo s.nVal (fun i => nTok ((s.vs i).endBlock s.height)) + ubdTotal s.ubd := b3
+    show _ = _ + 0
+    have z : ubdTotal ([] : List (Nat × Nat × Nat × Nat)) = 0 := rfl
+    omega
+  · show sumTo s.nVal (fun w => (if (s.vs w).bonded then (s.vs w).endBlock s.height else ((s.vs w).endBlock s.height).matureVal).allocated) = s.distrIn * ONE
+    rw [← hi.allocated]
+    exact sumTo_congr (fun i _ => (matureStep_fields (s.vs i) s.height).2.2.2.2.2.2)
+  · show sumTo s.nVal (fun w => (if (s.vs w).bonded then (s.vs w).endBlock s.height else ((s.vs w).endBlock s.height).matureVal).paid) = s.distrOut
+    rw [← hi.paid]
+    exact sumTo_congr (fun i _ => (matureStep_fields (s.vs i) s.height).2.2.2.2.1)
+
 set_option linter.unusedSimpArgs false
 
-theorem status_Acct {v : VS} (b j : Bool) (u : Nat) (h : Acct v) : Acct { v with bonded := b, ubHeight := u, jailed := j } := h
+theorem status_Acct {v : VS} (b ub j : Bool) (u : Nat) (h : Acct v) :
+    Acct { v with bonded := b, unbonded := ub, ubHeight := u, jailed := j } := h
 
 /-- one successful operation keeps the bank-side invariant -/
 theorem exec_BInv {c : Cfg} (hg : good c = true) {s s' : State} {o : Op}
@@ -703,7 +762,7 @@ theorem exec_BInv {c : Cfg} (hg : good c = true) {s s' : State} {o : Op}
     · rename_i hok
       have hv : v < s.nVal := by
         apply lt_of_okVal
-        revert hok; cases s.okVal v <;> cases (decide (ONE < f)) <;> decide
+        revert hok; cases s.okVal v <;> cases (decide (ONE < f)) <;> cases (s.vs v).unbonded <;> decide
       cases h
       obtain ⟨st, hle⟩ := slash_Step (s.vs v) s.height p f
       refine BInv_step1 hi hv (x := (s.vs v).slash s.height p f) (c := 0) (a := 0) (up := 0)
@@ -723,6 +782,10 @@ theorem exec_BInv {c : Cfg} (hg : good c = true) {s s' : State} {o : Op}
     simp only [State.exec] at h
     cases h
     exact block_BInv hi
+  | mature =>
+    simp only [State.exec] at h
+    cases h
+    exact mature_BInv hi
   | jail v =>
     simp only [State.exec] at h
     split at h
